@@ -355,9 +355,12 @@ def rows_for(env, spec: tuple[str, int]) -> int | None:
 
 
 def run_one(lab: Lab, wf: Wf, prefix: list[str], ops: list[dict], snap, meta, ref_final: dict | None, want_model: bool = True) -> tuple[SchedResult, list]:
-    """ops: [{"name","code","nth","at"}]: ops[0] top level; ops[i] injected into ops[i-1] at call index `at`."""
+    """ops: [{"name","code","nth","at"[,"yields"]}]: ops[0] top level; ops[i] injected into ops[i-1] at call index `at`;
+    "yields": [[j, m|None], ...] (family alternation): at its call j the op hands the baton back to ops[i-1], which runs on to its
+    first legal call >= m (None: to its end) before the op resumes."""
     mb = lab.mb
     env = lab.env
+    alt = any(o.get("yields") for o in ops)
 
     def mk(e):
         e.refs, e.ids, e.wf_id, e.wf_type = meta["refs"], meta["ids"], meta["wf_id"], meta["wf_type"]
@@ -368,6 +371,8 @@ def run_one(lab: Lab, wf: Wf, prefix: list[str], ops: list[dict], snap, meta, re
                 raise RuntimeError(f"row for {o} not pending: {e.pending()}")
             arm = {} if built is None else {built[1]: built[0]}
             op = e.deliver_op(o["name"], rid, arm)
+            if o.get("yields"):
+                op.yields = {int(j): mb.Yield(m) for j, m in o["yields"]}
             built = (op, o.get("at"))
         return built[0]
 
@@ -379,10 +384,17 @@ def run_one(lab: Lab, wf: Wf, prefix: list[str], ops: list[dict], snap, meta, re
     tags = []
     violations: list[tuple[str, str]] = []
     nontrivial = all(o.injected for o in out.ops[:-1]) and len(out.ops) > 1
+    if alt:
+        # a real alternation: the child yielded and its parent performed at least one call before the child resumed
+        nontrivial = nontrivial and all(bool(o.yielded) and all(pi is None or pi > od["at"] for _, pi in o.yielded)
+                                        for o, od in zip(out.ops, ops) if od.get("yields"))
+        tags.append("family:alternation")
     if out.blocked:
-        return SchedResult(sched, False, True, None, None, [], ["blocked"]), out.ops
+        return SchedResult(sched, False, True, None, None, [], ["blocked"] + (["blocked:alternation"] if alt else [])), out.ops
     if out.skipped:
         tags.append("skipped-intxn")
+    if any(o.skipped_yield for o in out.ops):
+        tags.append("skipped-yield")
     jid = meta["ids"]["j"]
     uids = {meta["ids"][f"u{i + 1}"]: i for i in range(wf.n)}
     abss = [abstract(o, od["code"], jid, uids) for o, od in zip(out.ops, ops)]
@@ -432,7 +444,16 @@ def run_one(lab: Lab, wf: Wf, prefix: list[str], ops: list[dict], snap, meta, re
                 res += flatten(k + 1)
             return res
 
-        sched_idx += flatten(0)
+        # the same schedule from the GLOBAL order in which the DB calls were performed (Call.g): the only way to order an alternation,
+        # and an independent cross-check of the nesting-based `flatten` for the old families
+        by_g = sorted((o.calls[idx].g, race_w[i], n) for i, (a, o) in enumerate(zip(abss, out.ops)) if race_w[i] is not None for idx, n in a.marks)
+        glob = [w for _, w, n in by_g for _ in range(n)]
+        if alt:
+            sched_idx += glob
+        else:
+            flat = flatten(0)
+            tags.append("order:flatten=global" if flat == glob else "order:flatten!=global")
+            sched_idx += flat
         upsl = ",".join(f"{u['status']}:{u['version']}" for u in meta["ups"])
         driver_line = (f"claim join={wf.join} th={wf.th} pre={b(wf.pre)} fix={FIX};{upsl};{','.join(workers)};"
                        f"{','.join(map(str, sched_idx)) or '-'}")
@@ -506,6 +527,110 @@ def model_to_impl_line(model_out: str, sched: dict, ops: list[dict]) -> str:
 
 
 # --------------------------------------------------------------------------------------
+# family "alternation": A1 B1 A2 B2 [A3] — B, injected at A's point k, yields at ITS point j; A runs on to its point m; B resumes
+# --------------------------------------------------------------------------------------
+
+_DML = ("INSERT", "INSERT-OR-IGNORE", "UPDATE", "DELETE")
+
+
+def _is_dml(c) -> bool:
+    return c.kind == "exec" and c.tag.split(".")[0] in _DML
+
+
+def _has_dml(calls: list, lo: int, hi: int | None) -> bool:
+    return any(_is_dml(c) for c in calls[lo:hi])
+
+
+def _canon(calls: list, i: int) -> bool:
+    """point i of a worker is canonical when the call right before it is not a plain read outside a transaction (such a read commutes with
+    reads of the other worker: the hand-over could as well happen before it)"""
+    if i <= 0 or i > len(calls):
+        return True
+    p = calls[i - 1]
+    return not (p.kind == "exec" and not p.intxn and not _is_dml(p))
+
+
+def alt_candidates(k: int, a_solo: list, b_nested: list) -> dict[str, list]:
+    """(k, j, m) triples for one injection point k of A, from A's un-armed run and B's run nested at k.  Two schedules that differ only in
+    the order of adjacent plain reads of the two workers are the same trace, so:
+      * B1 = B[0..j) read-only and A2 = A[k..m) read-only: the same trace as B nested at m (old family)            -> dropped
+      * B1 read-only: A's plain reads right before k commute with B1                                             -> only canonical k
+      * A2 read-only: B's plain reads right before j commute with A2                                             -> only canonical j
+    core = the stale-read-then-CAS pattern: B has read everything and pauses at its FIRST write statement (j*), A commits whole
+    write transactions (m = first legal point after a commit of A, or A's end);  p2 = B pauses between two of its reads (j < j*),
+    m as in core;  p3a = B1 read-only and m anywhere else;  p3b = (k, j) with B1 containing a committed write (j > j*): A's
+    continuation after B1 is not A's un-armed run, so m is enumerated from the run (k, j, end)."""
+    out: dict[str, list] = {"core": [], "p2": [], "p3a": [], "p3b": []}
+    if k >= len(a_solo) or not b_nested:
+        return out
+    blegal = [c.idx for c in b_nested if c.legal and c.idx > 0]
+    jstar = next((c.idx for c in b_nested if _is_dml(c)), None)
+    alegal = [c.idx for c in a_solo if c.legal and c.idx > k]
+    for j in blegal:
+        if _has_dml(b_nested, 0, j):
+            out["p3b"].append((k, j))
+            continue
+        if not _canon(a_solo, k):
+            continue
+        for m in alegal + [None]:
+            if not _has_dml(a_solo, k, m):
+                continue
+            cm = m is None or _canon(a_solo, m)
+            if cm and j == jstar:
+                out["core"].append((k, j, m))
+            elif cm:
+                out["p2"].append((k, j, m))
+            else:
+                out["p3a"].append((k, j, m))
+    return out
+
+
+def alt_ops(a: tuple[str, int], b: tuple[str, int], k: int, j: int, m: int | None) -> list[dict]:
+    return [{"name": "A", "code": a[0], "nth": a[1], "at": None}, {"name": "B", "code": b[0], "nth": b[1], "at": k, "yields": [[j, m]]}]
+
+
+def alt_unit(lab: "Lab", wf: Wf, prefix: list[str], a, b, a_solo: list, nested: dict[int, list], snap, meta, ref_final, cfg: dict, res: dict) -> None:
+    """Run the alternation schedules of one (workflow, prefix, pair).  cfg: {"p2","p3a","p3b_kj","p3b_m": None = all | sample size, "seed"}"""
+    import random
+
+    rng = random.Random(f"{cfg.get('seed', 0)}|{wf.key()}|{','.join(prefix)}|{a}|{b}")
+    cand: dict[str, list] = {"core": [], "p2": [], "p3a": [], "p3b": []}
+    for k in sorted(nested):
+        for cls, xs in alt_candidates(k, a_solo, nested[k]).items():
+            cand[cls] += xs
+    cnt = res.setdefault("alt", {})
+
+    def pick(xs: list, n: int | None) -> list:
+        return list(xs) if n is None or n >= len(xs) else sorted(rng.sample(xs, n), key=lambda t: tuple(-1 if v is None else v for v in t))
+
+    def go(cls: str, k: int, j: int, m: int | None):
+        r, rops = run_one(lab, wf, prefix, alt_ops(a, b, k, j, m), snap, meta, ref_final)
+        r.tags.append("alt:" + cls)
+        res["schedules"].append(vars(r))
+        cnt[cls + "_run"] = cnt.get(cls + "_run", 0) + 1
+        return r, rops
+
+    for cls in ("core", "p2", "p3a"):
+        cnt[cls + "_cand"] = cnt.get(cls + "_cand", 0) + len(cand[cls])
+        for (k, j, m) in pick(cand[cls], None if cls == "core" else cfg.get(cls)):
+            go(cls, k, j, m)
+    cnt["p3b_kj_cand"] = cnt.get("p3b_kj_cand", 0) + len(cand["p3b"])
+    for (k, j) in pick(cand["p3b"], cfg.get("p3b_kj")):
+        r, rops = go("p3b", k, j, None)          # the member "A finishes"; it also measures A's continuation after B1
+        if r.blocked or not rops[1].yielded:
+            continue
+        a_kj = rops[0].calls
+        ms = []
+        for m in [c.idx for c in a_kj if c.legal and c.idx > k]:
+            if not _has_dml(a_kj, k, m) and not _canon(nested[k], j):
+                continue
+            ms.append(m)
+        cnt["p3b_m_cand"] = cnt.get("p3b_m_cand", 0) + len(ms)
+        for m in pick([(x,) for x in ms], cfg.get("p3b_m")):
+            go("p3b", k, j, m[0])
+
+
+# --------------------------------------------------------------------------------------
 # work units (run in worker processes)
 # --------------------------------------------------------------------------------------
 
@@ -555,11 +680,15 @@ def unit_prefix(args: dict) -> dict:
             legal = [c.idx for c in calls if c.legal] + [len(calls)]
             res["points"] += len(legal)
             res["illegal_points"] += len(calls) + 1 - len(legal)
+            key = f"{a[0]}>{b[0]}"
+            altcfg = args.get("alt") if args.get("alt") and key in args["alt"]["pairs"] else None
+            nested: dict[int, list] = {}
             for k in legal:
                 ops = [opsA[0], {"name": "B", "code": b[0], "nth": b[1], "at": k}]
                 r, rops = run_one(lab, wf, prefix, ops, snap, meta, ref_final)
                 res["schedules"].append(vars(r))
-                key = f"{a[0]}>{b[0]}"
+                if altcfg and not r.blocked and len(rops) > 1 and rops[1].calls and rops[0].injected == [k] and k < len(calls):
+                    nested[k] = list(rops[1].calls)
                 if depth2 and key in depth2 and not r.blocked and len(rops) > 1 and rops[1].calls:
                     # third worker nested at every legal point of B (as B ran inside A at k)
                     others = [x for x in pairs_of(rows, dups=False) if x[0] == a and x[1] != b]
@@ -570,6 +699,8 @@ def unit_prefix(args: dict) -> dict:
                             ops3 = ops + [{"name": "C", "code": cspec[0], "nth": cspec[1], "at": jx}]
                             r3, _ = run_one(lab, wf, prefix, ops3, snap, meta, ref_final)
                             res["schedules"].append(vars(r3))
+            if altcfg and nested:
+                alt_unit(lab, wf, prefix, a, b, calls, nested, snap, meta, ref_final, altcfg, res)
     finally:
         lab.close()
     res["wall"] = time.time() - t0
@@ -600,7 +731,7 @@ def _pool(n: int):
     return mp.get_context("spawn").Pool(n)
 
 
-def make_units(pre: list[dict], thorough: bool, depth2: list[str], pair_filter: set[str] | None, depth2_c: int) -> list[dict]:
+def make_units(pre: list[dict], thorough: bool, depth2: list[str], pair_filter: set[str] | None, depth2_c: int, alt: dict | None = None) -> list[dict]:
     units = []
     for p in pre:
         for prefix, codes in p["prefixes"]:
@@ -613,7 +744,7 @@ def make_units(pre: list[dict], thorough: bool, depth2: list[str], pair_filter: 
             for pr in pairs:
                 units.append({"wf": p["wf"], "prefix": prefix, "thorough": thorough, "depth2": depth2, "depth2_c": depth2_c,
                               "pair_filter": sorted(pair_filter) if pair_filter else None,
-                              "only_pair": [list(pr[0]), list(pr[1])] if pr else []})
+                              "only_pair": [list(pr[0]), list(pr[1])] if pr else [], "alt": alt})
     return units
 
 
@@ -630,9 +761,15 @@ def explore(ctx, jobs: list[dict]) -> None:
         nstates = 0
         for p, (_, jb) in zip(pre, reqs):
             nstates += len(p["prefixes"])
-            units += make_units([p], jb["thorough"], jb["depth2"], jb.get("pair_filter"), jb.get("depth2_c", 1))
+            alt = jb.get("alt")
+            if alt and alt.get("wf_keys") is not None and Wf(**p["wf"]).key() not in alt["wf_keys"]:
+                alt = None
+            units += make_units([p], jb["thorough"], jb["depth2"], jb.get("pair_filter"), jb.get("depth2_c", 1), alt)
         # big units first
-        units.sort(key=lambda u: (0 if u["depth2"] and u["only_pair"] and f"{u['only_pair'][0][0]}>{u['only_pair'][1][0]}" in u["depth2"] else 1))
+        def _pk(u: dict) -> str:
+            return f"{u['only_pair'][0][0]}>{u['only_pair'][1][0]}" if u["only_pair"] else ""
+
+        units.sort(key=lambda u: (0 if u["depth2"] and _pk(u) in u["depth2"] else (1 if u.get("alt") and _pk(u) in u["alt"]["pairs"] else 2)))
         results = pool.map(unit_prefix, units, chunksize=1)
     digest(ctx, results)
     mbx = ctx.extra.setdefault("modeb", {})
@@ -648,6 +785,9 @@ def digest(ctx, results: list[dict]) -> None:
     for res in results:
         for k in ("points", "illegal_points", "enumerations"):
             mbx[k] = mbx.get(k, 0) + res.get(k, 0)
+        for k, v in (res.get("alt") or {}).items():
+            ax = mbx.setdefault("alternation", {})
+            ax[k] = ax.get(k, 0) + v
     # the first hit of a signature becomes the replay: prefer the fewest workers, then the shortest prefix
     allsched = sorted((r for res in results for r in res["schedules"]),
                       key=lambda r: (len(r["sched"]["ops"]), len(r["sched"]["prefix"]), json.dumps(r["sched"]["ops"])))
